@@ -526,7 +526,7 @@ package sftp
 //@   update after recv readCh#1: ghost.wTaken = ghost.wTaken + ite(ret1, 1, 0)
 //@   update after recv res#1: ghost.wDone = ghost.wDone + 1
 //@   property C20, C01, C03
-//@   channel readCh invariant m.res != nil
+//@   channel readCh invariant m.res != nil && cap(m.res) >= 1
 //@   requires pool != nil && pool.blen > 0 && pool.blen <= 0x7fffffff && pool.blen == chunkSize
 
 //@ func (*File).writeAtConcurrent$2
@@ -536,7 +536,7 @@ package sftp
 //@   update after recv res#1: ghost.wDone = ghost.wDone + 1
 //@   property C20, C01, C13, C03
 //@   requires attr(errCh, lo) == attr(workCh, lo) && attr(errCh, hi) == attr(workCh, hi)
-//@   channel workCh invariant attr(ch, lo) <= m.off && m.off <= attr(ch, hi) && m.res != nil
+//@   channel workCh invariant attr(ch, lo) <= m.off && m.off <= attr(ch, hi) && m.res != nil && cap(m.res) >= 1
 //@   channel errCh invariant m.err != nil && attr(ch, lo) <= m.off && m.off <= attr(ch, hi)
 //@   channel errCh nodrop
 //@   loop 1 invariant attr(errCh, lo) == attr(workCh, lo) && attr(errCh, hi) == attr(workCh, hi)
@@ -548,7 +548,7 @@ package sftp
 //@   update after recv res#1: ghost.wDone = ghost.wDone + 1
 //@   property C20, C01, C13, C03
 //@   requires attr(errCh, lo) == attr(workCh, lo)
-//@   channel workCh invariant attr(ch, lo) <= m.off && m.off < math.MaxInt64 && m.res != nil
+//@   channel workCh invariant attr(ch, lo) <= m.off && m.off < math.MaxInt64 && m.res != nil && cap(m.res) >= 1
 //@   channel errCh invariant m.err != nil && attr(ch, lo) <= m.off && m.off < math.MaxInt64
 //@   channel errCh nodrop
 //@   loop 1 invariant attr(errCh, lo) == attr(workCh, lo)
@@ -1807,7 +1807,7 @@ package sftp
 // (C03: a worker never abandons the reply of a chunk it has taken)
 //@   property C01, C13, C20, C03
 //@   requires attr(errCh, lo) == attr(workCh, lo) && attr(errCh, hi) == attr(workCh, hi)
-//@   channel workCh invariant 0 <= attr(ch, lo) && attr(ch, hi) <= 0x7fffffffffffffff - 1 && attr(ch, lo) <= m.off && m.off <= attr(ch, hi) && int64(len(m.b)) <= attr(ch, hi) - m.off && m.res != nil
+//@   channel workCh invariant 0 <= attr(ch, lo) && attr(ch, hi) <= 0x7fffffffffffffff - 1 && attr(ch, lo) <= m.off && m.off <= attr(ch, hi) && int64(len(m.b)) <= attr(ch, hi) - m.off && m.res != nil && cap(m.res) >= 1
 //@   channel errCh invariant m.err != nil && attr(ch, lo) <= m.off && m.off <= attr(ch, hi)
 //@   channel errCh nodrop
 //@   loop 1 invariant attr(errCh, lo) == attr(workCh, lo) && attr(errCh, hi) == attr(workCh, hi)
@@ -1817,7 +1817,7 @@ package sftp
 //@   property C01, C13, C03
 //@   requires fileOK(f) && off >= 0 && off <= 0x3fffffffffffffff && len(old(b)) <= 0x3fffffffffffffff
 //@   requires attr(workCh, lo) == off && attr(workCh, hi) == off + int64(len(old(b)))
-//@   channel workCh invariant 0 <= attr(ch, lo) && attr(ch, hi) <= 0x7fffffffffffffff - 1 && attr(ch, lo) <= m.off && m.off <= attr(ch, hi) && int64(len(m.b)) <= attr(ch, hi) - m.off && m.res != nil
+//@   channel workCh invariant 0 <= attr(ch, lo) && attr(ch, hi) <= 0x7fffffffffffffff - 1 && attr(ch, lo) <= m.off && m.off <= attr(ch, hi) && int64(len(m.b)) <= attr(ch, hi) - m.off && m.res != nil && cap(m.res) >= 1
 //@   loop 1 invariant fileOK(f) && chunkSize == f.c.maxPacket && samearray(b, old(b)) && len(b) <= len(old(b)) && offset == off + int64(len(old(b)) - len(b))
 //@   loop 1 invariant attr(workCh, lo) == off && attr(workCh, hi) == off + int64(len(old(b)))
 //@   assert before call (*clientConn).dispatchRequest#1: arg2.(*sshFxpReadPacket).Offset == uint64(offset) && uint64(arg2.(*sshFxpReadPacket).Len) == uint64(len(rb)) && len(rb) >= 1 && len(rb) <= f.c.maxPacket && arg2.(*sshFxpReadPacket).Handle == f.handle && arg2.(*sshFxpReadPacket).ID == id && arg1 == res
@@ -1828,7 +1828,7 @@ package sftp
 //  the order of the replies)
 //@   property C01, C20, C03
 //@   requires fileOK(f) && chunkSize >= 1 && chunkSize <= 0x7fffffff
-//@   channel readCh invariant m.res != nil
+//@   channel readCh invariant m.res != nil && cap(m.res) >= 1
 //@   loop 1 invariant fileOK(f) && chunkSize >= 1 && chunkSize <= 0x7fffffff
 //@   assert before call (*clientConn).dispatchRequest#1: arg2.(*sshFxpReadPacket).Offset == uint64(off) && uint64(arg2.(*sshFxpReadPacket).Len) == uint64(chunkSize) && arg2.(*sshFxpReadPacket).Handle == f.handle && arg2.(*sshFxpReadPacket).ID == id && arg1 == res
 
@@ -1836,7 +1836,7 @@ package sftp
 //@   property C01, C13, C20, C03
 //@   requires fileOK(f) && off >= 0 && off <= 0x3fffffffffffffff && len(b) <= 0x3fffffffffffffff
 //@   requires attr(workCh, lo) == off && attr(workCh, hi) == off + int64(len(b))
-//@   channel workCh invariant attr(ch, lo) <= m.off && m.off <= attr(ch, hi) && m.res != nil
+//@   channel workCh invariant attr(ch, lo) <= m.off && m.off <= attr(ch, hi) && m.res != nil && cap(m.res) >= 1
 //@   loop 1 invariant fileOK(f) && chunkSize == f.c.maxPacket && 0 <= read && read <= len(b)
 //@   loop 1 invariant attr(workCh, lo) == off && attr(workCh, hi) == off + int64(len(b))
 //@   assert before call (*clientConn).dispatchRequest#1: arg2.(*sshFxpWritePacket).Offset == uint64(old(off) + int64(read)) && uint64(arg2.(*sshFxpWritePacket).Length) == uint64(len(wb)) && arg2.(*sshFxpWritePacket).Data == wb && len(wb) >= 1 && len(wb) <= f.c.maxPacket && wb == b[read:read+len(wb)] && arg2.(*sshFxpWritePacket).Handle == f.handle && arg2.(*sshFxpWritePacket).ID == id && arg1 == res
@@ -2014,7 +2014,7 @@ package sftp
 //@   property C01, C12, C13, C20, C03
 //@   requires fileOK(f) && r != nil && f.offset >= 0 && f.offset <= 0x3fffffffffffffff
 //@   requires attr(workCh, lo) == f.offset && attr(errCh, lo) == f.offset
-//@   channel workCh invariant attr(ch, lo) <= m.off && m.off < math.MaxInt64 && m.res != nil
+//@   channel workCh invariant attr(ch, lo) <= m.off && m.off < math.MaxInt64 && m.res != nil && cap(m.res) >= 1
 //@   channel errCh invariant m.err != nil && attr(ch, lo) <= m.off && m.off < math.MaxInt64
 //@   channel errCh nodrop
 //@   loop 1 ghost dOff
